@@ -140,6 +140,38 @@ class Evaluator:
             raise Unknown("call")
         raise Unknown("expression %s" % type(e).__name__)
 
+    def _forward(self, value, p, ivs, env, depth):
+        """`return helper(p)` / `return helper(p)[k]`: the parameter handed on to another one-parameter ladder of the program
+        (a shared row lookup): that ladder's pieces over the live intervals, projected by the subscript.  None if `value` is
+        not of that form."""
+        sub = None
+        e = value
+        if isinstance(e, ast.Subscript):
+            try:
+                sub = self.const(e.slice, env, depth)
+            except Unknown:
+                return None
+            e = e.value
+        if not (isinstance(e, ast.Call) and len(e.args) == 1 and not e.keywords and isinstance(e.args[0], ast.Name) and e.args[0].id == p and p not in env):
+            return None
+        target = self._resolve(e.func)
+        if target is None or depth >= self.max_depth:
+            return None
+        saved = getattr(self, "_cls", None)
+        try:
+            inner = Evaluator(self.prog, self.module, self.max_depth).pieces(target, depth=depth + 1, domain=list(ivs))
+        finally:
+            self._cls = saved
+        out = []
+        for lo, hi, v in inner:
+            if sub is not None:
+                if isinstance(v, tuple) and isinstance(sub, int) and -len(v) <= sub < len(v):
+                    v = v[sub]
+                else:
+                    raise Unknown("subscript of a helper result that is not a table row")
+            out.append((lo, hi, v))
+        return out
+
     def _bind(self, target, value, env):
         if isinstance(target, ast.Name):
             env[target.id] = value
@@ -270,6 +302,10 @@ class Evaluator:
             if rp:
                 op = _flip(op)
             return _split_iv(ivs, op, k)
+        if isinstance(test, ast.Call) and isinstance(test.func, ast.Name) and test.func.id == "isinstance" and len(test.args) == 2:
+            # the parameter is an integer in this evaluation: isinstance(p, <array / dtype type>) is False, isinstance(p, int) True
+            is_int = isinstance(test.args[1], ast.Name) and test.args[1].id == "int"
+            return (ivs, []) if is_int else ([], ivs)
         raise Unknown("condition %s" % type(test).__name__)
 
     # ------------------------------------------------------------------ statements
@@ -298,6 +334,10 @@ class Evaluator:
                 if isinstance(s, ast.Return):
                     if s.value is None:
                         raise Unknown("bare return")
+                    fwd = self._forward(s.value, p, ivs, env, depth)
+                    if fwd is not None:
+                        out.extend(fwd)
+                        return []
                     v = self.const(s.value, env, depth)
                     for lo, hi in ivs:
                         out.append((lo, hi, v))
